@@ -57,6 +57,7 @@ pub struct Walker<'a> {
     pub trace: Option<TraceWriter>,
     pub quiet: bool,
     pub sample: Vec<String>,
+    pub construct_failed: Option<String>,
 }
 
 /// what the real object did in one step
@@ -82,7 +83,10 @@ pub fn label_text(e: &Edge) -> String {
 pub fn known_trigger(kind: &str, flavour: &str, cap: usize, ov: &[i64], e: &Edge) -> Option<&'static str> {
     match kind {
         "slotmap" => {
-            if matches!(e.a.as_str(), "insert_at" | "remove" | "get" | "contains") && e.i[0] == cap as i64 {
+            if matches!(e.a.as_str(), "insert_at" | "remove") && e.i[0] == cap as i64 {
+                return Some("slotmap:key-eq-capacity");
+            }
+            if matches!(e.a.as_str(), "get" | "contains") && e.i[0] >= cap as i64 {
                 return Some("slotmap:key-eq-capacity");
             }
             None
@@ -108,7 +112,7 @@ pub fn known_trigger(kind: &str, flavour: &str, cap: usize, ov: &[i64], e: &Edge
 
 impl<'a> Walker<'a> {
     pub fn new(aut: &'a Automaton, cfg: Cfg) -> Self {
-        Walker { aut, cfg, stats: Stats::default(), divs: BTreeMap::new(), covered: HashSet::new(), trace: None, quiet: false, sample: vec![] }
+        Walker { aut, cfg, stats: Stats::default(), divs: BTreeMap::new(), covered: HashSet::new(), trace: None, quiet: false, sample: vec![], construct_failed: None }
     }
 
     fn allowed(&self, state: usize, g: &Group, core_only: bool, for_walk: bool, obj: &dyn Real) -> bool {
@@ -141,13 +145,15 @@ impl<'a> Walker<'a> {
     pub fn fresh(&mut self, path: &[PStep]) -> Option<Live> {
         let mut obj = match real::make(&self.cfg.kind, &self.cfg.flavour, self.cfg.cap, self.cfg.in_block) {
             Ok(o) => o,
-            Err(_) => {
+            Err(e) => {
                 block::POOL.with(|p| p.borrow_mut().reclaim_all());
+                self.construct_failed = Some(e);
                 return None;
             }
         };
         let ov = catch_unwind(AssertUnwindSafe(|| obj.observe()));
         let inits = self.aut.init.get(&(self.cfg.cap as i64)).cloned().unwrap_or_default();
+        self.take_soft(path, None, "init");
         match ov {
             Ok(Ok(ov)) => {
                 if let Some(s) = inits.iter().find(|s| self.aut.states[**s].ov == ov) {
@@ -241,6 +247,12 @@ impl<'a> Walker<'a> {
         ob
     }
 
+    fn take_soft(&mut self, path: &[PStep], at: Option<PStep>, a: &str) {
+        if let Some(msg) = real::SOFT.with(|s| s.borrow_mut().take()) {
+            self.diverge(path, at, a, vec![], json!({"problem": msg}), "nul-terminator");
+        }
+    }
+
     /// executes group g of live.state; true = matched an edge (live.state advanced)
     pub fn step(&mut self, live: &mut Live, g: usize, path: &[PStep]) -> bool {
         let state = live.state;
@@ -278,6 +290,7 @@ impl<'a> Walker<'a> {
             }
         }
         let ob = self.execute(&mut live.obj, e);
+        self.take_soft(path, Some((state, g)), &e.a);
         let net = if self.tokens() { ob.d.clone() } else { vec![0; tok::NV] };
         self.record_trace(e, &ob.r, &ob.v, &net, ob.ov.as_ref());
         if ob.problem.is_none() {
@@ -334,6 +347,7 @@ impl<'a> Walker<'a> {
             Ok(Err(m)) => (None, Some(format!("observers inconsistent: {m}"))),
             Err(p) => (None, Some(format!("panic in observer: {}", crate::panic_text(&p)))),
         };
+        self.take_soft(path, Some((state, g)), "relocate");
         self.record_trace(e, "ok", &[], &vec![0; tok::NV], ov.as_ref());
         if ov.as_ref() == Some(&self.aut.states[state].ov) {
             return Some((state, g));
@@ -359,12 +373,12 @@ impl<'a> Walker<'a> {
                 return format!("{c}:{what}");
             }
         }
-        if kind == "slotmap" && self.cfg.cap == 0 {
-            return format!("slotmap:cap0:{a}:{what}");
+        if (kind == "slotmap" || kind == "flatmap") && self.cfg.cap == 0 {
+            return format!("slotmap:cap0:{kind}:{a}:{what}");
         }
         if kind == "slotmap" {
             // a successful insert_at precedes the failing step (free-list defect of claim_index)
-            let tainted = path.iter().any(|(s, g)| {
+            let tainted = path.iter().chain(at.iter()).any(|(s, g)| {
                 let e = self.aut.label(&self.aut.out[*s][*g]);
                 e.a == "insert_at" && e.i[0] < self.cfg.cap as i64
             });
@@ -377,7 +391,7 @@ impl<'a> Walker<'a> {
     }
 
     fn diverge(&mut self, path: &[PStep], at: Option<PStep>, a: &str, expected: Vec<Value>, observed: Value, what: &str) {
-        let class = self.classify(path, at, a, what);
+        let class = if what == "nul-terminator" { format!("string:nul-terminator:{a}") } else { self.classify(path, at, a, what) };
         let len = path.len();
         let mut hist = self.render_path(path);
         let packed: Vec<u32> = path.iter().chain(at.iter()).map(|(s, g)| crate::crash::pack(*s, *g)).collect();
@@ -475,7 +489,7 @@ impl<'a> Walker<'a> {
     }
 
     pub fn cover(&mut self) -> Value {
-        let Some(probe) = self.fresh(&[]) else { return json!({"constructible": false}) };
+        let Some(probe) = self.fresh(&[]) else { return json!({"constructible": self.construct_failed.is_none()}) };
         let tree = self.bfs_tree(probe.obj.as_ref());
         let mut todo: Vec<PStep> = vec![];
         for s in 0..self.aut.states.len() {
@@ -658,7 +672,7 @@ impl<'a> Walker<'a> {
     }
 
     pub fn paths(&mut self, max_depth: usize, budget: u64) -> Value {
-        let Some(probe) = self.fresh(&[]) else { return json!({"constructible": false}) };
+        let Some(probe) = self.fresh(&[]) else { return json!({"constructible": self.construct_failed.is_none()}) };
         let mut pick = |core: bool, w: &Walker| -> (usize, f64) {
             let mut best = (0usize, 1f64);
             for d in 1..=max_depth {
@@ -704,7 +718,7 @@ impl<'a> Walker<'a> {
         let mut longest = 0u64;
         for _ in 0..walks {
             crate::crash::reset();
-            let Some(mut live) = self.fresh(&[]) else { return json!({"constructible": false}) };
+            let Some(mut live) = self.fresh(&[]) else { return json!({"constructible": self.construct_failed.is_none()}) };
             self.record_reset(&live);
             let mut path: Vec<PStep> = vec![];
             let mut alive = true;
